@@ -134,7 +134,7 @@ TOTAL = sum(_LENS)
 
 
 @harness(
-    "C03", timeout=(300, 1500),
+    "C03", timeout=(500, 1500),
     shards=_seq_shards,
     functions=["transport:AssociationSocket.recv", "transport:AssociationSocket.ready", "dul:DULServiceProvider._is_transport_event",
                "dul:DULServiceProvider._read_pdu_data", "dul:DULServiceProvider._decode_pdu"],
@@ -212,7 +212,7 @@ N_LCUTS = tier(2, 3)
 
 
 @harness(
-    "C03", timeout=(300, 1500),
+    "C03", timeout=(500, 1500),
     shards=[{"mode": "cuts"}, {"mode": "close"}],
     functions=["transport:AssociationSocket.recv", "transport:AssociationSocket.ready", "dul:DULServiceProvider._is_transport_event",
                "dul:DULServiceProvider._read_pdu_data", "dul:DULServiceProvider._decode_pdu"],
